@@ -830,3 +830,38 @@ Proof.
   - intros Hn. now rewrite C15_ts_decl_partial, E.
 Qed.
 End TSDocs.
+
+(* ================= Part 9: the front end keeps one raw (trimmed) string per doc attribute ================= *)
+From TS Require Import Model.Syntax Model.Attrs.
+
+(* `#[doc = "s"]` (which is also what `/// s` and `/** s */` are to syn) *)
+Definition c15_doc_attr (inner : bool) (s : str) : attr :=
+  {| a_inner := inner; a_meta := MNV [lit "doc"] (VStr s) |}.
+Definition c15_is_doc_attr (a : attr) : bool :=
+  match a_meta a with MNV p (VStr _) => path_is_ident p (lit "doc") | _ => false end.
+
+Lemma parse_comment_attrs_app uc a b :
+  parse_comment_attrs uc (a ++ b) = parse_comment_attrs uc a ++ parse_comment_attrs uc b.
+Proof. unfold parse_comment_attrs. apply flat_map_app. Qed.
+
+Lemma parse_comment_attrs_doc uc inner s : parse_comment_attrs uc [c15_doc_attr inner s] = [trim uc s].
+Proof. reflexivity. Qed.
+
+Lemma parse_comment_attrs_other uc a : c15_is_doc_attr a = false -> parse_comment_attrs uc [a] = [].
+Proof.
+  unfold c15_is_doc_attr, parse_comment_attrs. destruct a as [i m]. cbn [a_meta flat_map].
+  destruct m as [p|p x y|p v]; try reflexivity. destruct v; [|now destruct (path_is_ident p (lit "doc"))].
+  intros ->. reflexivity.
+Qed.
+
+(* the doc strings of an attribute list: the trimmed literal of every doc attribute, in order, one each *)
+Theorem parse_comment_attrs_spec uc attrs :
+  parse_comment_attrs uc attrs =
+  flat_map (fun a => match a_meta a with
+                     | MNV p (VStr s) => if path_is_ident p (lit "doc") then [trim uc s] else []
+                     | _ => []
+                     end) attrs.
+Proof.
+  unfold parse_comment_attrs. apply flat_map_ext. intros [i m]. cbn [a_meta].
+  destruct m as [p|p x y|p v]; try reflexivity. destruct v; [reflexivity|]. now destruct (path_is_ident p (lit "doc")).
+Qed.
